@@ -22,13 +22,15 @@ NCPU = int(os.environ.get("VERIF_JOBS", "0")) or min(16, os.cpu_count() or 1)
 
 _BT = None
 _BUILD = None
+_SNAP = None
 
 
 def _init_worker(snapdir, compiled):
-    global _BT, _BUILD
+    global _BT, _BUILD, _SNAP
     faulthandler.enable()
     _BT = build.load(snapdir, compiled=compiled)
     _BUILD = "cy" if compiled else "py"
+    _SNAP = snapdir
 
 
 def get_bt():
@@ -264,8 +266,10 @@ def replay_fresh(spec, path):
 def do_replay(spec, path):
     doc = json.load(open(path))
     bld = doc.get("build", "py")
+    global _SNAP, _BUILD
     d = build.snapshot(compiled=(bld == "cy"))
     bt = build.load(d, compiled=(bld == "cy"))
+    _SNAP, _BUILD = d, bld
     rng.pin_globals(rng.derive(doc.get("master_seed", 0), spec.id, doc.get("run_index", 0), "g"))
     res = spec.run(bt, doc["plan"])
     exp = doc["expected"]["check"]
